@@ -427,6 +427,7 @@ def main_(argv):
             return 2
 
     known = load_known()
+    applicable = [k for k in known if k.get("status") == "known" and k.get("property") == pid]
     violations, known_hits = [], []
     diffs_for_prop = []
     total_ops = agree = 0
@@ -443,9 +444,12 @@ def main_(argv):
                 continue
             if replay and v["seq"] != replay["seq"]:
                 continue
-            env, state, ctx = op_line(r["trace"], v["seq"])
-            opl = ctx[-1] if ctx else ""
-            k = next((k for k in known if known_match(k, pid, v, opl)), None)
+            # the operation line is needed only to match a listed (unrepaired) finding of this property
+            opl = ""
+            if applicable:
+                env, state, ctx = op_line(r["trace"], v["seq"])
+                opl = ctx[-1] if ctx else ""
+            k = next((k for k in applicable if known_match(k, pid, v, opl)), None)
             if k:
                 known_hits.append((k, v, r))
             else:
